@@ -403,12 +403,12 @@ package leveldb
 // O3: CURRENT is switched only after the new manifest is flushed and synced; the old manifest is removed only
 // after CURRENT was switched; if CURRENT was not switched nothing of the session state changed.
 //@ func (*session).newManifest
-//@   props C04 C08
+//@   props C04 C08 C07
 //@   mode bv
 //@   at before call storage.Storage.SetMeta#1
-//@     assert [C04:manifest-durable-before-current] calls("(*Writer).Flush") > old(calls("(*Writer).Flush")) && ((s.o.Options != nil && s.o.Options.NoSync) || calls("storage.Syncer.Sync") > old(calls("storage.Syncer.Sync")))
+//@     assert [C04,C07:manifest-durable-before-current] calls("(*Writer).Flush") > old(calls("(*Writer).Flush")) && ((s.o.Options != nil && s.o.Options.NoSync) || calls("storage.Syncer.Sync") > old(calls("storage.Syncer.Sync")))
 //@   at before call storage.Storage.Remove#1
-//@     assert [C04:current-switched-before-old-manifest-removed] err == nil && calls("storage.Storage.SetMeta") > old(calls("storage.Storage.SetMeta"))
+//@     assert [C04,C07:current-switched-before-old-manifest-removed] err == nil && calls("storage.Storage.SetMeta") > old(calls("storage.Storage.SetMeta"))
 //@   ensures [C04,C08:no-switch-no-change] calls("storage.Storage.SetMeta") == old(calls("storage.Storage.SetMeta")) ==> (err != nil && s.manifest == old(s.manifest) && s.manifestWriter == old(s.manifestWriter) && s.manifestFd.Num == old(s.manifestFd.Num) && s.stSeqNum == old(s.stSeqNum) && s.stJournalNum == old(s.stJournalNum))
 
 // O4: the session state follows an appended record only after it is flushed and synced.
@@ -598,7 +598,7 @@ package leveldb
 //@   ensures recHas(p.hasRec, recSeqNum) && p.seqNum == num && recHas(p.hasRec, recJournalNum) == old(recHas(p.hasRec, recJournalNum)) && p.hasRec == (old(p.hasRec) | (1 << recSeqNum))
 //@   modifies p.hasRec, p.seqNum
 //@ func (*DB).recoverJournal
-//@   props C04
+//@   props C04 C07
 //@   at call (*session).markFileNum#1
 //@     assert [C04:highest-replayed-journal-number-is-retired] fds[len(fds)-1].Num < db.s.stNextFileNum
 //@   at before call (*session).commit#1
@@ -606,9 +606,9 @@ package leveldb
 //@   at before call (*session).commit#2
 //@     assert [C04:recovery-commit-carries-numbers] recHas(rec.hasRec, recJournalNum) && recHas(rec.hasRec, recSeqNum) && rec.journalNum == db.journalFd.Num && rec.seqNum == db.seq
 //@   at before call storage.Storage.Remove#1
-//@     assert [C04:journal-removed-only-after-its-commit] lastok("(*session).commit") > last("decodeBatchToMem")
+//@     assert [C04,C07:journal-removed-only-after-its-commit] lastok("(*session).commit") > last("decodeBatchToMem")
 //@   at before call storage.Storage.Remove#2
-//@     assert [C04:journal-removed-only-after-its-commit] lastok("(*session).commit") > last("decodeBatchToMem")
+//@     assert [C04,C07:journal-removed-only-after-its-commit] lastok("(*session).commit") > last("decodeBatchToMem")
 
 // ---------------------------------------------------------------------------
 // C06: the recorded smallest / largest keys of a table are its first and last appended keys.
@@ -961,3 +961,18 @@ package leveldb
 //@     assert [C02:newest-visible-version-complete] gPvHas && gPvIsVal && gPvU == krank(i.key) && krank(ukey) != krank(i.key) && seq <= i.seq
 //@   at before stmt return true#2
 //@     assert [C02:newest-visible-version-at-the-start] gPvHas && gPvIsVal && gPvU == krank(i.key)
+
+// ---------------------------------------------------------------------------
+// C07: the janitor that runs at open removes a manifest or journal only if it is older than the live one (the
+// frozen journal counts as live while it exists). Table files are removed only if the live version does not list
+// them: that part goes through a Go map, which the verifier does not model - not proved.
+//@ spec func stale(db ref, fd ref) bool = (fd.Type == storage.TypeManifest && fd.Num < db.s.manifestFd.Num) || (fd.Type == storage.TypeJournal && ((db.frozenJournalFd.Type != 0 || db.frozenJournalFd.Num != 0) ? fd.Num < db.frozenJournalFd.Num : fd.Num < db.journalFd.Num)) || fd.Type == storage.TypeTable
+//@ func (*DB).checkAndCleanFiles
+//@   props C07
+//@   safety off
+//@   loop 3
+//@     invariant [C07:only-stale-files-are-listed] forall k int :: 0 <= k && k < len(rem) ==> stale(db, rem[k])
+//@   loop 5
+//@     invariant [C07:only-stale-files-are-listed] forall k int :: 0 <= k && k < len(rem) ==> stale(db, rem[k])
+//@   at before call storage.Storage.Remove#1
+//@     assert [C07:only-stale-files-are-removed] stale(db, fd)
